@@ -163,13 +163,20 @@ class _Tracker(object):
         cand = {}
         for n in walk_own(f.node):
             if isinstance(n, ast.Assign) and len(n.targets) == 1 and isinstance(n.targets[0], ast.Name):
-                ok = isinstance(n.value, ast.Constant) and isinstance(n.value.value, bool)
+                ok = (isinstance(n.value, ast.Constant) and isinstance(n.value.value, bool)) or self._is_getter_expr(n.value)
                 cand.setdefault(n.targets[0].id, []).append(ok)
         self.bools = set(k for k, v in cand.items() if all(v) and k not in f.params)
         self._mayraise = {}
 
     def _is_tok(self, e):
         return isinstance(e, ast.Name) and e.id == self.tok
+
+    def _is_getter_expr(self, e):
+        """tokenizer.get_return_set() possibly negated: a saved copy of the mode"""
+        if isinstance(e, ast.UnaryOp) and isinstance(e.op, ast.Not):
+            return self._is_getter_expr(e.operand)
+        return isinstance(e, ast.Call) and isinstance(e.func, ast.Attribute) and e.func.attr == GETTER \
+            and isinstance(e.func.value, ast.Name) and e.func.value.id == 'tokenizer' and not e.args
 
     def eval_test(self, t, mode, loc):
         if isinstance(t, ast.UnaryOp) and isinstance(t.op, ast.Not):
@@ -260,7 +267,10 @@ class _Tracker(object):
                 if isinstance(st, ast.Assign) and len(st.targets) == 1 and isinstance(st.targets[0], ast.Name) \
                         and st.targets[0].id in self.bools:
                     d = dict(loc)
-                    d[st.targets[0].id] = st.value.value
+                    if isinstance(st.value, ast.Constant):
+                        d[st.targets[0].id] = st.value.value
+                    else:
+                        d[st.targets[0].id] = self.eval_test(st.value, mode, loc)
                     nloc = tuple(sorted(d.items()))
                 for c in ast.walk(st):
                     if isinstance(c, ast.Call) and isinstance(c.func, ast.Attribute) and c.func.attr == SETTER \
